@@ -506,7 +506,6 @@ package generator
 //@   ensures [C11] anyof-agreeing-branches: len(t.Type) == 0 && len(t.AnyOf) >= 1 ==> result0 == (branches_agree(t.AnyOf) ? first_branch_type(t.AnyOf) : "null")
 //@   ensures [C11] allof-agreeing-branches: len(t.Type) == 0 && len(t.AnyOf) == 0 && len(t.AllOf) >= 1 ==> result0 == (branches_agree(t.AllOf) ? first_branch_type(t.AllOf) : "null")
 
-
 // ---- parsing a $ref (extractRefNames) ------------------------------------------
 // "F#/$defs/N" and "F#/definitions/N" (the prefix in any letter case) give
 // (N, F); a ref without '#' is a file; any other fragment is an error. Never
